@@ -67,7 +67,8 @@ CLAIMED = {
         "induction over the nested structure), multi_duration, multi_nshift, and combine_apply_states (whenever '@' accepts two operands -- scalar@scalar, matrix@matrix, "
         "matrix@scalar, scalar@matrix, with or without recovery terms -- the combined arrays act on any state matrix exactly as the operands applied in order). The clause on "
         "first/second-order partials of '@' is NOT a theorem: it is checked on the implementation against sequential application (testing) and is violated for alias / "
-        "coefficient-map declarations and automatic second order (two known findings).",
+        "coefficient-map declarations and for second order outside four operand classes mapped experimentally (two known findings; the "
+        "four reliable classes are checked as violations).",
    design_ref="DESIGN.md section 4 C10, section 9 item 15",
    note=TB + "Model/Combine.v tied to opscalar/opmatrix _combine by exact comparison of the combined arrays for chains of 2-4 operands in either association; shape/duration of "
         "real combined operators with 0-3 batch axes by oracle. Axioms: none.",
@@ -76,10 +77,11 @@ CLAIMED = {
    text="Machine-checked proof (Coq) on Model/Run.v (simulate_simple transcribed: apply in place, tic += duration, at each probe occurrence record (pb or op).acquire(sm, "
         "post=op.post), transposition, single-probe flattening; get_adc_times; modify/default_modifier with memo, att, P vs E, defaults): probe_count_order (one row per probe "
         "occurrence, the quantity of the state at that point, snapshot semantics), times_cumsum, override_keeps_when_and_post, adc_phase, weights_reduce, reduce_only, "
+        "C12_tuple_probe_value (a probe returning several quantities records their values at its own position), "
         "multi_duration, modify_flat / modify_equiv / modify_times (modify = inserting an evolution after every operator with positive duration, timing unchanged), for every sequence.",
    design_ref="DESIGN.md section 4 C12",
    note=TB + "Model tied by exact dyadic correspondence of values, times, get_adc_times and MultiOperator.duration (tolerance 1e-13 only for the float phasor, 1e-12 for exp-based "
-        "modify numerics); coefficients of T/E/P are abstract constructors in the model; array durations, expand and n-D batches are checked Python-side only. One known finding "
+        "modify numerics); coefficients of T/E/P are abstract constructors in the model; array durations (incl. through modify, against per-entry scalar runs), expand and n-D batches are checked Python-side only. One known finding "
         "(explicit MultiOperator duration ignored by timing). Axioms: none.",
    technique="Coq proof (induction over sequences) + exact correspondence + Interval for the phasor"),
  "C14": dict(
@@ -165,16 +167,18 @@ CLAIMED = {
    design_ref="DESIGN.md section 4 C11",
    note=TB + "Translator translator/seq_tables.py (ast extraction) and the ten primitive semantics (incl. powR for **); model tied to epgpy by exact rational "
         "vm_compute and Interval correspondence of eval/derive/map, virtual-operator calls with positional/keyword arguments in random order under a "
-        "PYTHONHASHSEED sweep; jacobian/hessian/crlb wrappers are covered by central differences only (testing). Axioms: classical reals, funext, classic.",
+        "PYTHONHASHSEED sweep; jacobian/hessian/crlb/confint wrappers are covered by central differences of hand-built concrete sequences (row/column variable "
+        "lists, shared non-linear argument expressions) and by per-entry scalar runs for batches of rank 0-3 (testing). Axioms: classical reals, funext, classic.",
    technique="Coq proof (structural induction, is_derive; finite table check by vm_compute) + table translator + correspondence + hash-seed sweep"),
  "C20": dict(
    text="Machine-checked proof (Coq): one guard per documented invalid-input class, composed as the constructors / prepare / _format_states / "
-        "_parse_partials / check compose them (Model/Validate.v); 75 universally quantified theorems reject_<class> (every member: any magnitude, "
+        "_parse_partials / check compose them (Model/Validate.v); 82 universally quantified theorems reject_<class> (every member: any magnitude, "
         "any position in an array argument, any batch shape, by induction over lists) and accept_<boundary> (zero duration, zero flip angle, tau=0, "
         "4-component shifts ...); the exact gaps of the existing guards are stated as theorems (tolerances of allclose, Offset, tau of E/P/D/X not "
         "guarded unless duration=True).",
    design_ref="DESIGN.md section 4 C20",
-   note=TB + "The guard model is hand-written and tied to epgpy by a 1668-case malformed/boundary input correspondence comparing raised/not raised and the "
+   note=TB + "The guard model is hand-written and tied to epgpy by a 2135-case malformed/boundary input correspondence (incl. a sweep of falsy-but-valid values 0, 0.0, -0.0, numpy zeros, "
+        "0-d arrays, empty collections over every validated argument) comparing raised/not raised and the "
         "exception class on the real constructors and calls; np.allclose is modelled exactly over the rationals; class membership of generated inputs "
         "is assigned by the generators. Axioms: none.",
    technique="Coq proof (universally quantified guard theorems) + malformed-input correspondence"),
@@ -187,7 +191,9 @@ CLAIMED = {
         "programs; lookup_order1 characterises the dictionary for every declaration form). (b) Analysis: the 13 closed-form "
         "derivative arrays of T, Phi, E, P, R, TRANSLATED from the source on every run, are proved to be the derivatives "
         "(Coquelicot is_derive) of the translated operator arrays, recovery term included. The clause 'whatever non-differentiable "
-        "operators occur' is REFUTED (jacobian_refuted_spoiler) and listed as a known finding.",
+        "operators occur' is REFUTED (jacobian_refuted_spoiler) and listed as a known finding; the model is 1-D: for n-D shifts the "
+        "implementation shifts every partial state matrix on its own (pruning/merging independently), a second known finding found "
+        "by testing (exact with integer shifts and prune=0, which the n-D stream checks against central differences).",
    design_ref="DESIGN.md section 4 C02, section 9 item 10",
    note=TB + "Translator validated by the Interval tie; Model/Diff.v tied to diff.py by exact correspondence of sm.order1 after every operator of "
         "generated programs (all order1 forms). The composition of (a) and (b) into is_derive of the signal is by the sum/product rules and is not one "
